@@ -286,9 +286,14 @@ def gen_run(run_seed: int, tier: str) -> Dict[str, Any]:
             m = r_ops.choice([8, 33, 64, 100, 128])
             ops.append(["GET", 0, "fresh", None])
             ops += use_ops(0, 2)
-            ops.append(["BURST", 1, m])
+            ops.append(["BURST", 1, m, r_ops.random() < 0.5])  # True: drop + collect the intermediate ones
             ops += use_ops(1, 3)
             ops += use_ops(0, 3)
+            if r_ops.random() < 0.5:
+                ops.append(["DROP", 1])
+                ops.append(["GET", 2, "user", rand_cfg()])
+                ops += use_ops(2, 3)
+                ops += use_ops(0, 2)
             nslots = 2
         else:
             length = r_ops.randrange(2, 9) if n > 1 else r_ops.randrange(4, 24)
@@ -320,6 +325,16 @@ def gen_run(run_seed: int, tier: str) -> Dict[str, Any]:
                         others = [q for q in range(nslots) if q != s and q not in customised]
                         if others:
                             ops += use_ops(r_ops.choice(others), 2)
+                elif x < 0.97 and nslots >= 2 and n == 1:
+                    # let a converter die (drop + collect), then create another: ids / weak references
+                    # of dead converters must not matter (single-thread histories only: collection
+                    # is process-wide)
+                    sd = r_ops.randrange(nslots)
+                    if sd not in shared_slots:
+                        ops.append(["DROP", sd])
+                        ops.append(get_op(sd, allow_shared=False))
+                        customised.discard(sd)
+                        ops += use_ops(sd, 2)
                 else:
                     ops.append(["YIELD"])
             ops += use_ops(r_ops.randrange(nslots), 2)
@@ -378,6 +393,7 @@ def execute(run: Dict[str, Any], golden: Dict[str, Any]) -> Dict[str, Any]:
         "reget": 0,
         "forbid_extra_keys_config": 0,
         "extra_battery_used": 0,
+        "dropped_and_collected": 0,
     }
 
     # model: identity -> mode ('plain' | 'post' | 'pre' | 'unknown'); slots per thread
@@ -395,6 +411,13 @@ def execute(run: Dict[str, Any], golden: Dict[str, Any]) -> Dict[str, Any]:
             mode[id(c)] = "pre"
             probes["customise_before_get"] += 1
         shared.append(c)
+
+    def forget(c: Any) -> None:
+        """The run drops its last reference to c: the model forgets the identity (ids may be reused)."""
+        for lst in (keep_alive, registry):
+            lst[:] = [x for x in lst if x is not c]
+        mode.pop(id(c), None)
+        cfgs.pop(id(c), None)
 
     def gold(c: Any) -> Dict[str, Any]:
         m = mode.get(id(c), "plain")
@@ -468,7 +491,7 @@ def execute(run: Dict[str, Any], golden: Dict[str, Any]) -> Dict[str, Any]:
         slots: Dict[int, Any] = {}
         for oi, op in enumerate(run["threads"][idx]):
             kind = op[0]
-            if kind in ("USE", "BUILD", "CUSTOM", "REGET") and op[1] not in slots:
+            if kind in ("USE", "BUILD", "CUSTOM", "REGET", "DROP") and op[1] not in slots:
                 continue  # slot never created (minimised script): no-op
             sched.yield_point(("op", oi, kind))
             outcome: Any = None
@@ -480,6 +503,7 @@ def execute(run: Dict[str, Any], golden: Dict[str, Any]) -> Dict[str, Any]:
                     if how == "fresh":
                         c = conv_mod.get_converter()
                         mode.setdefault(id(c), "plain")
+                        cfgs.setdefault(id(c), "std")
                     elif how == "user":
                         base = make_user(arg)
                         cfgs[id(base)] = cfg_key(arg)
@@ -518,12 +542,26 @@ def execute(run: Dict[str, Any], golden: Dict[str, Any]) -> Dict[str, Any]:
                     slots[op[1]] = c2
                     probes["reget"] += 1
                     outcome = ("got",)
+                elif kind == "DROP":
+                    c = slots.pop(op[1])
+                    if not any(v is c for v in slots.values()) and not any(v is c for v in shared):
+                        forget(c)
+                        del c
+                        gc.collect()
+                        probes["dropped_and_collected"] += 1
+                    outcome = ("dropped",)
                 elif kind == "BURST":
-                    _, s, m = op
+                    s, m = op[1], op[2]
+                    collect = len(op) > 3 and op[3]
                     c = None
                     for _i in range(m):
                         c = conv_mod.get_converter()
+                        if not collect:
+                            keep_alive.append(c)
+                    if collect:
                         keep_alive.append(c)
+                        gc.collect()
+                        probes["dropped_and_collected"] += 1
                     mode.setdefault(id(c), "plain")
                     registry.append(c)
                     slots[s] = c
